@@ -43,7 +43,7 @@ def cases(tier, seed):
             out.append(dict(c, k='step_multiple', sim=s, K=3, form='nsteps', keys=('name', 'wire')[len(out) % 2]))
             out.append(dict(c, k='vcd', sim=s, K=2))
             out.append(dict(c, k='print_trace', sim=s, K=3))
-    for kind_ in ('digits', 'mixed', 'odd'):
+    for kind_ in ('digits', 'mixed', 'odd', 'long'):
         for s in SIMS:
             out.append({'fam': 'VCDN', 'kind': kind_, 'k': 'vcd', 'sim': s, 'K': 2, 'seed': len(out)})
             out.append({'fam': 'VCDN', 'kind': kind_, 'k': 'print_trace', 'sim': s, 'K': 3})
@@ -55,6 +55,7 @@ def cases(tier, seed):
                     continue
                 out.append({'k': 'rtl_assert', 'sim': s, 'w': w, 'K': 3, 'exc': exc})
             out.append({'k': 'rtl_assert_channels', 'sim': s, 'w': w, 'K': 3})
+            out.append({'k': 'rtl_assert', 'sim': s, 'w': w, 'K': 3, 'exc': 'custom', 'track': 'subset'})
     for s in SIMS:
         for w in (1, 4, 8, 64, 70):
             out.append({'k': 'illegal', 'sim': s, 'w': w})
@@ -147,7 +148,9 @@ def do_inspect(case, ob, site):
 
 def build_vcdn(d):
     """names whose natural order (x2 < x10) differs from their lexicographic order, illegal VCD characters, distinct widths"""
-    names = {'digits': ['x2', 'x10', 'y9', 'y12'], 'mixed': ['a10b2', 'a2b10', 'o1', 'o01x'], 'odd': ['q.1', 'q%', 'r[3]', 'r[12]']}[d['kind']]
+    names = {'digits': ['x2', 'x10', 'y9', 'y12'], 'mixed': ['a10b2', 'a2b10', 'o1', 'o01x'], 'odd': ['q.1', 'q%', 'r[3]', 'r[12]'],
+             # longer than any column of a report; the outputs agree in their first ten (and twenty) characters
+             'long': ['operand_number_one', 'operand_number_two', 'result_of_the_datapath_sum', 'result_of_the_datapath_xor']}[d['kind']]
     a, b = pyrtl.Input(2, names[0]), pyrtl.Input(3, names[1])
     o1, o2 = pyrtl.Output(4, names[2]), pyrtl.Output(5, names[3])
     o1 <<= a + b
@@ -622,9 +625,11 @@ def do_rtl_assert(case, ob, site):
         ob.fact('exception-class-refused-only-if-a-KeyError', isinstance(exp, KeyError), site + ':refused')
         return
     block = pyrtl.working_block()
+    # 'subset': the caller's tracer lists the wires the caller is interested in, not the Output rtl_assert made
+    track = [a, o] if case.get('track') == 'subset' else 'io'
     v = Vars()
     with sym_env([block]):
-        rs = run_sim(block, K, v, kind=kind, reg_init='reset', mem_init='default', track='io')
+        rs = run_sim(block, K, v, kind=kind, reg_init='reset', mem_init='default', track=track)
     ob.paths += len(rs)
     bad = [v.inp('a', t, w) == (1 << w) - 1 for t in range(K)]
     covered = []
@@ -643,7 +648,7 @@ def do_rtl_assert(case, ob, site):
     for t in range(K):
         vt = Vars()
         with sym_env([block]):
-            rt = run_sim(block, t + 1, vt, kind=kind, reg_init='reset', mem_init='default', track='io')
+            rt = run_sim(block, t + 1, vt, kind=kind, reg_init='reset', mem_init='default', track=track)
         for r in rt:
             badt = [vt.inp('a', u, w) == (1 << w) - 1 for u in range(t + 1)]
             if r.exc is None:
